@@ -437,14 +437,28 @@ class RTFEncodingService:
             if processed_attrs.col_rel_width is not None:
                 # Expand if needed (though usually 1D)
                 current_widths = processed_attrs.col_rel_width
-                # If it matches original columns, slice it
+                subline_indices = {
+                    original_df.columns.index(col)
+                    for col in (rtf_attrs.subline_by or [])
+                    if col in original_df.columns
+                }
+                # Positions of the original columns the widths were given for
+                positions: list[int] | None = None
                 if len(current_widths) == cols:
-                    new_widths = [
+                    # If it matches original columns, slice it
+                    positions = list(range(cols))
+                elif subline_indices and len(current_widths) == cols - len(
+                    subline_indices
+                ):
+                    # Documented short form: one width per column that remains
+                    # once the subline_by columns are gone
+                    positions = [i for i in range(cols) if i not in subline_indices]
+                if positions is not None:
+                    processed_attrs.col_rel_width = [
                         w
-                        for i, w in enumerate(current_widths)
+                        for i, w in zip(positions, current_widths, strict=True)
                         if i not in removed_indices
                     ]
-                    processed_attrs.col_rel_width = new_widths
         else:
             processed_attrs = rtf_attrs
 
